@@ -14,6 +14,7 @@
        dispatch.
  R03.4 curve-in-shape: every vertex of the curve is tested with the caller's
        boundary flag before True can be returned.
+ R03.5 the consulted facts (signed areas, boxes) are never stale (= R10.1).
 Not decided: adequacy of the vertex / mid-crossing sampling of _contains_jordan,
 the consequences A|B == A.
 """
@@ -540,4 +541,13 @@ def r03_4(ctx):
     return out
 
 
-RULES = [r03_1, r03_2, r03_3, r03_4]
+def r03_5(ctx):
+    from rules import C10
+    o = C10.r10_1(ctx)
+    o.rule = "R03.5"
+    o.text = ("the facts the containment decision consults (orientation / area via float(), bounding boxes) are never "
+              "served from a stale cache (same analysis as R10.1)")
+    return o
+
+
+RULES = [r03_1, r03_2, r03_3, r03_4, r03_5]
